@@ -401,6 +401,42 @@ def bindings (p : Props) : List Binding :=
     | .str s => if s = [] then none else some { path := a.path, header := s }
     | _ => none)
 
+/-! ### Resolving a property-name path in the schema tree (the specification side of the bindings)
+
+`bindings` is a transliteration of the recursive walk of `collectParamHeaderAnnotations` (which carries a `prefix`
+slice down the tree).  `propAt` is the independent reading of a path: start at the root `properties` map, look the
+first name up, descend into that property's own `properties`, and so on.  The theorems `binding_path_resolves`,
+`bindings_complete` and `binding_paths_nodup` (Props.lean) tie the two together for trees of any depth and width. -/
+
+/-- `props[name]` (a Go map has one entry per name: the first sibling called `name`). -/
+def Props.find (name : Bytes) : Props → Option (Bytes × XH × Props)
+  | .nil => none
+  | .cons n ty xh children rest => if n = name then some (ty, xh, children) else rest.find name
+
+/-- The property (its `type` and `x-mcp-header` member) that the property-name path designates. -/
+def propAt : Props → List Bytes → Option (Bytes × XH)
+  | _, [] => none
+  | p, [k] => (p.find k).map (fun e => (e.1, e.2.1))
+  | p, k :: k' :: rest =>
+    match p.find k with
+    | some e => propAt e.2.2 (k' :: rest)
+    | none => none
+
+/-- The names of one `properties` map. -/
+def siblingNames : Props → List Bytes
+  | .nil => []
+  | .cons n _ _ _ rest => n :: siblingNames rest
+
+/-- Every `properties` map of the tree has pairwise distinct keys (true of anything decoded into a Go map). -/
+def NamesDistinct : Props → Prop
+  | .nil => True
+  | .cons n _ _ children rest => n ∉ siblingNames rest ∧ NamesDistinct children ∧ NamesDistinct rest
+
+/-- Executable form of `NamesDistinct` (used by the driver to validate its input). -/
+def namesDistinctB : Props → Bool
+  | .nil => true
+  | .cons n _ _ children rest => !(siblingNames rest).contains n && namesDistinctB children && namesDistinctB rest
+
 /-- `isTChar` on a byte (non-ASCII runes are never tchars, and they consist of bytes ≥ 0x80). -/
 def isTChar (c : Nat) : Bool :=
   isDigit c || (65 ≤ c && c ≤ 90) || (97 ≤ c && c ≤ 122) || tcharSpecials.contains c
@@ -595,9 +631,13 @@ structure Req where
   accept : List Bytes
   version : Bytes                -- Mcp-Protocol-Version header
   sess : SessRef
+  noSessionIds : Bool            -- the server's `ServerOptions.GetSessionID` returns "": a stateful handler then serves every
+                                 -- POST without a session id on an ephemeral session (`ephemeralConnectOpts`), like a stateless one
   lastEventId : Bool             -- a Last-Event-ID header is present
   limit : Int                    -- StreamableHTTPOptions.MaxRequestBodyBytes as configured
-  bodyLen : Nat
+  bodyLen : Nat                  -- bytes the body reader delivers (before it ends or fails)
+  declared : Option Nat          -- `req.ContentLength` if ≥ 0; `none` = no declared length (chunked upload, HTTP/2 stream)
+  readFails : Bool               -- the body reader ends with an error instead of EOF (upload aborted after `bodyLen` bytes)
   content : Content
   mcpMethod : Bytes
   mcpName : Bytes
@@ -622,6 +662,19 @@ def effLimit (limit : Int) : Int := if limit = 0 then (defaultMaxRequestBodyByte
 
 /-- `http.MaxBytesReader(w, body, n)` makes `io.ReadAll` fail iff more than `n` bytes arrive; installed only when `n > 0`. -/
 def tooLarge (r : Req) : Bool := effLimit r.limit > 0 && (r.bodyLen : Int) > effLimit r.limit
+
+/-- What `io.ReadAll(req.Body)` yields where the handler reads the body: `*http.MaxBytesError` (413) as soon as more
+than the limit has been delivered — whatever length was declared, if any —, any other read error: 400. -/
+def bodyGate (r : Req) : Option Outcome :=
+  if tooLarge r then some (rej 413)
+  else if r.readFails then some (rej 400)
+  else none
+
+/-- The gate's answer if it has one, else go on. -/
+def gateThen (g : Option Outcome) (k : Outcome) : Outcome :=
+  match g with
+  | some o => o
+  | none => k
 
 /-- DNS-rebinding gate shared by both handlers. -/
 def hostGateRejects (r : Req) : Bool :=
@@ -657,8 +710,10 @@ def soleMsg (r : Req) : Option Msg :=
 body (stateless: `ephemeralConnectOpts`), so the 413 arm cannot fire here. -/
 def servePOST (c : B64) (stateless bodyRead : Bool) (r : Req) : Outcome :=
   if r.lastEventId then rej 400
-  else if !bodyRead && tooLarge r then rej 413
-  else if r.bodyLen = 0 then rej 400
+  else match (if bodyRead then none else bodyGate r) with
+  | some o => o
+  | none =>
+  if r.bodyLen = 0 then rej 400
   else match r.content with
     | .malformed => rej 400
     | .msgs isBatch l =>
@@ -678,8 +733,9 @@ def serveStateless (c : B64) (r : Req) : Outcome :=
   if r.method ≠ .post then .reject 405 none (some allowPost)
   else if r.baseMedia ≠ appJson then rej 415
   else if !((streamableAccepts r.accept).1 && (streamableAccepts r.accept).2) then rej 400
-  else if tooLarge r then rej 413
-  else servePOST c true true r
+  else match bodyGate r with
+    | some o => o
+    | none => servePOST c true true r
 
 /-- `serveStateful` and its three arms. -/
 def serveStateful (c : B64) (r : Req) : Outcome :=
@@ -700,7 +756,13 @@ def serveStateful (c : B64) (r : Req) : Outcome :=
     else if !((streamableAccepts r.accept).1 && (streamableAccepts r.accept).2) then rej 400
     else match r.sess with
       | .unknown => rej 404
-      | _ => servePOST c false false r
+      | .known => servePOST c false false r
+      | .none =>
+        if r.noSessionIds then
+          -- ephemeral session: `ephemeralConnectOpts` reads the body first (REPAIRED behaviour, fix preflight-F30:
+          -- `*http.MaxBytesError` is answered 413 here too, as in `serveStateless`; the pinned tree answers 400)
+          gateThen (bodyGate r) (servePOST c false true r)
+        else servePOST c false false r
   | .other => .reject 405 none (some allowGetPostDelete)
 
 /-- `StreamableHTTPHandler.ServeHTTP`. -/
@@ -720,7 +782,8 @@ def serveSSE (r : Req) : Outcome :=
        | .none => rej 400
        | .unknown => rej 404
        | .known =>
-         match soleMsg r with
+         if r.readFails then rej 400
+         else match soleMsg r with
          | some m => if m.isReq && m.check ≠ .ok then rej 400 else .dispatched false
          | none => rej 400)
     | .get => .served 200
